@@ -67,8 +67,12 @@ func NewCaseWriter(dir, prop, header string, perShard int) (*CaseWriter, error) 
 	if err != nil {
 		return nil, err
 	}
-	return &CaseWriter{dir: dir, prop: prop, header: header, perShard: perShard,
-		Counts: map[string]int{}, sigs: map[string]bool{}, jsonl: jl}, nil
+	w := &CaseWriter{dir: dir, prop: prop, header: header, perShard: perShard,
+		Counts: map[string]int{}, sigs: map[string]bool{}, jsonl: jl}
+	if err := w.open(); err != nil {
+		return nil, err
+	}
+	return w, nil
 }
 
 func (w *CaseWriter) open() error {
@@ -79,6 +83,7 @@ func (w *CaseWriter) open() error {
 	}
 	w.f = f
 	w.inShard = 0
+	Cur = NewInterner()
 	_, err = f.WriteString(w.header + "\n")
 	return err
 }
@@ -87,18 +92,21 @@ func (w *CaseWriter) open() error {
 // the name of the Coq function computing the verdict. replay is stored in
 // cases.jsonl under the same id so the driver can write replay files.
 func (w *CaseWriter) Add(id string, def string, checkFn string, replay interface{}) error {
-	if w.f == nil || w.inShard >= w.perShard {
-		if w.f != nil {
-			w.f.Close()
-			w.shard++
-		}
+	idLit, _ := CoqString(id)
+	if Cur != nil {
+		w.f.WriteString(Cur.Flush())
+	}
+	fmt.Fprintf(w.f, "Definition %s := %s.\nEval vm_compute in (%s, %s %s).\n", id, def, idLit, checkFn, id)
+	w.inShard++
+	w.Total++
+	if w.inShard >= w.perShard {
+		// roll over now, so that the next case's terms are built against the new file's interner
+		w.f.Close()
+		w.shard++
 		if err := w.open(); err != nil {
 			return err
 		}
 	}
-	fmt.Fprintf(w.f, "Definition %s := %s.\nEval vm_compute in (%s, %s %s).\n", id, def, MustCoqString(id), checkFn, id)
-	w.inShard++
-	w.Total++
 	line, err := json.Marshal(map[string]interface{}{"id": id, "case": replay})
 	if err != nil {
 		return err
